@@ -37,6 +37,31 @@ fn classify(entry: &EntryD, cfg: &CfgD) -> &'static str {
     "other"
 }
 
+/// writes a timestamp, two values and a metric whose third observation panics: a call that
+/// unwinds out of the formatter after it has written into its buffers
+struct PanickingEntry;
+struct PanickingValue;
+struct ExpectedPanic;
+impl metrique_writer::Value for PanickingValue {
+    fn write(&self, w: impl metrique_writer::ValueWriter) {
+        let obs = (0..).map(|i| {
+            if i >= 2 {
+                std::panic::panic_any(ExpectedPanic);
+            }
+            metrique_writer::Observation::Unsigned(i + 1)
+        });
+        w.metric(obs, metrique_writer::Unit::None, [], metrique_writer::MetricFlags::empty());
+    }
+}
+impl metrique_writer::Entry for PanickingEntry {
+    fn write<'a>(&'a self, w: &mut impl metrique_writer::EntryWriter<'a>) {
+        w.timestamp(std::time::UNIX_EPOCH + std::time::Duration::from_secs(1_700_000_000));
+        w.value("A", "val-A");
+        w.value("Before", &7u64);
+        w.value("Panicking", &PanickingValue);
+    }
+}
+
 fn check(st: &mut St, cfg: &CfgD, pristine: &Emf, entry: &EntryD) {
     let mut out = std::mem::take(&mut st.out);
     let outcome = run_fresh(pristine, cfg.mult, entry, &mut out);
@@ -48,7 +73,7 @@ fn judge(st: &mut St, cfg: &CfgD, entry: &EntryD, outcome: Outcome, out: Vec<u8>
     st.cases += 1;
     let small = |e: &EntryD| if e.ops.iter().any(|o| matches!(o, OpD::Value(_, ValD::Metric { obs, .. }) if obs.len() > 100)) { json!("huge (see gen_::huge_obs)") } else { e.to_json() };
     let replay = || if after.is_empty() { json!({"config": cfg.to_json(), "entry": small(entry)}) } else { json!({"config": cfg.to_json(), "entry": small(entry), "on_a_long_lived_formatter_after": after}) };
-    let after_key = if after.is_empty() { "" } else if after.starts_with("clone") { ":on-clone-of-used-formatter" } else { ":after-huge-entry" };
+    let after_key = if after.is_empty() { "" } else if after.starts_with("clone") { ":on-clone-of-used-formatter" } else if after.starts_with("a call that unwound") { ":after-a-call-that-unwound" } else { ":after-huge-entry" };
     match &outcome {
         Outcome::Ok => {
             st.ok += 1;
@@ -258,6 +283,34 @@ fn main() {
             }
         }
     }
+    // 4c. the formatter goes on being used after a call that unwound (a value panicked in the
+    //     middle of its distribution; the panic is caught by the caller)
+    let mut after_unwind = 0u64;
+    {
+        let default_hook = std::panic::take_hook();
+        std::panic::set_hook(Box::new(move |info| {
+            if !info.payload().is::<ExpectedPanic>() {
+                default_hook(info);
+            }
+        }));
+        for cfg in &cfgs {
+            let mut r = Runner::new(cfg);
+            for frame in frames(tier) {
+                for values in vh_seq::emfx::mutate::base_value_sets() {
+                    let entry = build_entry(cfg, frame, values);
+                    let mut sink = Vec::new();
+                    let unwound = std::panic::catch_unwind(std::panic::AssertUnwindSafe(|| r.format_entry(&PanickingEntry, &mut sink))).is_err();
+                    let mut out = Vec::new();
+                    let o = r.format(&entry, &mut out);
+                    if unwound {
+                        judge(&mut st, cfg, &entry, o, out, "a call that unwound out of the formatter (a value panicked mid-distribution)");
+                        after_unwind += 1;
+                    }
+                }
+            }
+        }
+        let _ = std::panic::take_hook();
+    }
     // 5. entries scaled past the small alphabets
     let mut scaled_cases = 0u64;
     for cfg in scaled_configs() {
@@ -279,6 +332,7 @@ fn main() {
     }
     rep.set("evaluations", cases);
     rep.set("cases_on_a_clone_of_a_used_formatter", on_clone);
+    rep.set("cases_after_a_call_that_unwound", after_unwind);
     rep.set("distinct_nontrivial", shapes.len() as u64);
     rep.set("rule", "complete cross products of the alphabets in emfx/gen_.rs (layers A1,A2,B,C), the <=2-edit neighbourhood of valid base entries (layer W), and every Unicode scalar value as name/string; a case is non-trivial if the formatter accepted it, counted distinct by output shape (#records, members per record, directive count, per-member observation count / string length)");
     rep.set("exhaustive", true);
